@@ -77,6 +77,7 @@ def nada_dsl_to_nada_mir(outputs: List[Output]) -> Dict[str, Any]:
     PARTIES.clear()
     INPUTS.clear()
     LITERALS.clear()
+    FUNCTIONS.clear()
     operations: Dict[int, Dict] = {}
     # Process outputs
     for output in outputs:
